@@ -77,9 +77,8 @@ where
 {
   type Unsub = ();
 
-  fn actual_subscribe(self, observer: O) -> Self::Unsub {
-    observer.complete();
-  }
+  #[inline]
+  fn actual_subscribe(self, _observer: O) -> Self::Unsub {}
 }
 
 impl ObservableExt<(), Infallible> for NeverObservable {}
